@@ -807,6 +807,18 @@ func runRunner(c *core.Ctx, which string) {
 			}
 			c.RunSharded(cases, core.ShardOpts{Mode: "runner", Bin: bin, Workers: workers, CPUs: limit, Timeout: timeout, PerCaseTime: 150 * time.Millisecond,
 				Env: append(env, "VERIF_LIMIT="+fmt.Sprint(limit)), Died: died(limit, race)})
+			if which == "C09" && !race && limit <= 2 {
+				// the limit is the number of CPUs, whatever GOMAXPROCS says: the same CPU set with GOMAXPROCS raised
+				var some []string
+				for i, id := range cases {
+					if i%3 == 0 {
+						some = append(some, id)
+					}
+				}
+				c.Count("children_with_gomaxprocs_above_the_cpu_count", 1)
+				c.RunSharded(some, core.ShardOpts{Mode: "runner", Bin: bin, Workers: workers, CPUs: limit, Timeout: timeout, PerCaseTime: 150 * time.Millisecond,
+					Env: append(append([]string{}, env...), "VERIF_LIMIT="+fmt.Sprint(limit), "GOMAXPROCS="+fmt.Sprint(limit+5)), Died: died(limit, race)})
+			}
 		}
 	}
 	if which == "C04" {
